@@ -8,6 +8,9 @@
 
 // Preprocessor (v0.13.0)
 #include "preprocessor/preprocessor.h"
+#ifdef CB_VERIF
+#include "../common/verif_hooks.h"
+#endif
 
 #include <cstdarg>
 #include <cstdlib>
@@ -117,6 +120,17 @@ int main(int argc, char **argv) {
             std::fprintf(stderr, "Error: AST generation failed\n");
             return 1;
         }
+#ifdef CB_VERIF
+        if (cbv_on("CB_VERIF_DUMP_AST")) {
+            cbv_dump_ast(root, stderr);
+            std::fputc('\n', stderr);
+        }
+        if (cbv_on("CB_VERIF_PARSE_ONLY")) {
+            std::fflush(stdout);
+            std::fflush(stderr);
+            std::_Exit(0);
+        }
+#endif
 
         // インタープリターでASTを実行
         if (debug_mode) {
